@@ -393,15 +393,18 @@ def callZ (p : ZPoly) (v : PyNum) (h : Horner) : PyVal :=
 
 /-- `Poly.__call__` on a Poly: `Poly(sum(coeff * value ** power for …), self.zero)`.  The summands carry the zero
     of `value` (`__rmul__`, `__radd__` wrap their number with it); the final cast gives the result `self.zero`. -/
-def composeZ (p q : ZPoly) : Except PyErr ZPoly := do
-  let terms ← p.data.mapM (fun kc =>
+def composeTerms (p q : ZPoly) : Except PyErr (List ZPoly) :=
+  p.data.mapM (fun kc =>
     match powZ q kc.1 .int with
     | .new r => pure (mulZ (ofNumZ kc.2 (some r.zero)) r)
     | .self => pure (mulZ (ofNumZ kc.2 (some q.zero)) q)
     | .err e => throw e)
-  match terms with
-  | [] => pure (ofNumZ (.int 0) (some p.zero))
-  | t :: ts => pure (ofPolyZ (ts.foldl addZ (addZ (ofNumZ (.int 0) (some t.zero)) t)) (some p.zero))
+
+def composeZ (p q : ZPoly) : Except PyErr ZPoly :=
+  match composeTerms p q with
+  | .error e => .error e
+  | .ok [] => .ok (ofNumZ (.int 0) (some p.zero))
+  | .ok (t :: ts) => .ok (ofPolyZ (ts.foldl addZ (addZ (ofNumZ (.int 0) (some t.zero)) t)) (some p.zero))
 
 /-! ### calculus -/
 
@@ -431,9 +434,11 @@ def eqsZ (p : ZPoly) (c : PyNum) : Bool := eqZ p (ofNumZ c (some p.zero))
 
 /-- what `hash((frozenset(items), zero))` is a function of: the set of `(power, hash(coefficient))`
     (canonically: sorted by power) and `hash(zero)`; TypeError for an unhashable zero -/
+def hmap (d : MPoly PyNum) : MPoly Int := d.map (fun kv => (kv.1, kv.2.hash))
+
 def hashZ (p : ZPoly) : Except PyErr (List (Int × Int) × Int) := do
   let hz ← p.zero.hash
-  pure ((sortAsc p.data).map (fun kv => (kv.1, kv.2.hash)), hz)
+  pure (sortAsc (hmap p.data), hz)
 
 /-- `Poly.__setitem__` (on an instance that has not been hashed) -/
 def setItemZ (p : ZPoly) (k : Int) (c : PyNum) : ZPoly :=
